@@ -54,6 +54,31 @@ theorem caller_cells_untouched (grow : Nat → Nat → Nat) (o : List Cell → N
     rw [← e.2, f.2 0 (by simp [callerHeap])]
     rfl
 
+/-- **`HardwrapScanner.Scan` writes only into the array of its own fresh line**: every array that existed
+before the call (the caller's cells, the lines returned earlier) is unchanged, for every text, heap and
+growth policy; the scanner's `cells` afterwards is a sub-slice of the old one or empty. -/
+theorem hard_scan_writes_only_fresh_arrays (grow : Nat → Nat → Nat) (h : Heap) (st : HSt) (h' : Heap) (st' : HSt)
+    (hne : 0 < h.length) (e : hardScanH grow h st = some (h', st')) :
+    h.length ≤ h'.length ∧ (∀ i, i < h.length → arrOf h' i = arrOf h i) ∧ st'.line.arr < h'.length := by
+  unfold hardScanH at e
+  split at e
+  · cases e
+  · simp only [Option.some.injEq] at e
+    obtain ⟨f, g⟩ := hardLoopH_frame grow st.cells h.length st.cells.len 0 h emptySlice (Nat.le_refl _) (good_empty _ h hne)
+    rw [e] at f g
+    exact ⟨f.1, f.2, g.2⟩
+
+/-- Non-vacuity: "a\nb" — the first `Scan` returns the line "a" in a new array, leaves `cells = "b"` as a
+sub-slice of the caller's array, and the caller's array is what it was. -/
+example :
+    let a : Cell := { g := 0, w := 1, style := 1, sp := false, term := false, nl := false }
+    let n : Cell := { g := 1, w := 0, style := 0, sp := true, term := true, nl := true }
+    let b : Cell := { g := 2, w := 1, style := 2, sp := false, term := false, nl := false }
+    (match hardScanH (fun c _ => 2 * c) [[a, n, b]] ⟨⟨0, 0, 3, 3⟩, emptySlice⟩ with
+     | some (h', st') => read h' st'.line == [a] && read h' st'.cells == [b] && st'.cells.arr == 0 &&
+         st'.line.arr == 1 && arrOf h' 0 == [a, n, b]
+     | none => false) = true := by decide
+
 /-- Non-vacuity: "aa aaaaa a" at width 3 (a long word is split, `s.rest` is rebuilt) gives the lines of
 the value-level model and leaves the caller's array as it was; and what the theorems exclude does
 happen for a slice that is *not* fresh — `append(cells[:0], x)` overwrites the caller's first cell. -/
